@@ -79,10 +79,10 @@ def validSeqLine : List Char → Except Err (List Char)
 def parseLines (ops : CharOps) : List (List Char) → Bool → List Char → Except Err (List Char)
   | [], _, acc => .ok acc
   | l :: ls, header, acc =>
-    match stripLine ops l with
-    | [] => parseLines ops ls header acc
-    | '>' :: _ => if header then .error .secondHeader else parseLines ops ls true acc
-    | line => match validSeqLine line with
+    if (stripLine ops l).isEmpty then parseLines ops ls header acc
+    else if (stripLine ops l).head? == some '>' then
+      (if header then .error .secondHeader else parseLines ops ls true acc)
+    else match validSeqLine (stripLine ops l) with
       | .error e => .error e
       | .ok r => parseLines ops ls header (acc ++ r)
 
